@@ -752,3 +752,27 @@ def check(case, ctx):
     if part == "ls":
         return _check_ls(case, ctx)
     raise AssertionError("unknown part %r" % (part,))
+
+
+# ----------------------------------------------------------------------------
+# every direct library call made by this check must leave the arrays handed
+# to it unchanged (core.GuardedCalls)
+# ----------------------------------------------------------------------------
+def _guard_targets():
+    from pyphysim.channel_estimation import estimators
+    from pyphysim.reference_signals import channel_estimation as ce
+    t = [(estimators, "compute_ls_estimation")]
+    for name in ("CazacBasedChannelEstimator",
+                 "CazacBasedWithOCCChannelEstimator"):
+        t += [(getattr(ce, name), n) for n in ("__init__",
+                                               "estimate_channel_freq_domain")]
+    return t
+
+
+_unguarded_check = check
+
+
+def check(case, ctx):  # noqa: F811
+    from ..core import GuardedCalls
+    with GuardedCalls(_guard_targets(), dict(part=case.get("part"))):
+        return _unguarded_check(case, ctx)
